@@ -230,6 +230,18 @@ class TriAvg(PowderScheme):
             * 0.5
             * sl2,
         )
+        # A triangle whose three frequencies coincide is a delta function (both
+        # slopes above are undefined): all of its weight goes in the bin that
+        # contains that frequency
+        ymat = np.where(
+            trirect_mat[:, :, 0] == trirect_mat[:, :, 2],
+            1.0
+            * (
+                (trirect_mat[:, :, 0] >= trirect_mat[:, :, 3])
+                & (trirect_mat[:, :, 0] < trirect_mat[:, :, 4])
+            ),
+            ymat,
+        )
         ymat *= triweights[:, None]
 
         y = np.sum(ymat, axis=0)
